@@ -12,6 +12,7 @@ Fixpoint dec_sel (t : tree) : option sel :=
   | L [A 4; A n] => if 0 <=? n then Some (SLexicase (Z.to_nat n)) else None
   | L [A 5; A w; s] => if 0 <=? w then option_map (SLeaf (Z.to_N w)) (dec_sel s) else None
   | L [A 6; a; b] => match dec_sel a, dec_sel b with Some x, Some y => Some (SPair x y) | _, _ => None end
+  | L [A 9; s] => dec_sel s   (* a probe around a member: transparent for what is selected *)
   | L [A 7] => Some SDynNil
   | L [A 8; s; A w; r] => if 0 <=? w then
                             match dec_sel s, dec_sel r with Some x, Some y => Some (SDynCons x (Z.to_N w) y) | _, _ => None end
@@ -59,12 +60,49 @@ Definition law (pol : bool) (pop : population) (s : sel) : list (Z * Q) :=
 Definition enc_law (l : list (Z * Q)) : list Z :=
   flat_map (fun cq => [fst cq; Qnum (snd cq); Z.pos (Qden (snd cq))]) l.
 
+(* probes (a member wrapped so that its uses are counted), in the order the specification lists them; true = the
+   member sits under a weight of zero and must therefore never be used *)
+Fixpoint probes (zero : bool) (t : tree) : list bool :=
+  match t with
+  | L [A 9; _] => [zero]
+  | L [A 5; A w; s] => probes (zero || (w =? 0)) s
+  | L [A 6; a; b] => probes zero a ++ probes zero b
+  | L [A 8; s; A w; r] => probes (zero || (w =? 0)) s ++ probes zero r
+  | _ => []
+  end.
+(* every member is probed *)
+Fixpoint all_probed (t : tree) : bool :=
+  match t with
+  | L [A 9; _] => true
+  | L [A 5; _; s] => all_probed s
+  | L [A 6; a; b] => all_probed a && all_probed b
+  | L [A 7] => true
+  | L [A 8; s; _; r] => all_probed s && all_probed r
+  | _ => false
+  end.
+Definition hist_total (h : list tree) (keep : Z -> bool) : Z :=
+  fold_right (fun e acc => match e with L [A c; A k] => if keep c then k + acc else acc | _ => acc end) 0 h.
+(* members of weight zero are never used; when every member is probed and the population is not empty, each
+   selection that is not a zero-total-weight error used exactly one member *)
+Definition probes_ok (spec : tree) (nonempty : bool) (h : list tree) (calls : list Z) : bool :=
+  let zs := probes false spec in
+  Nat.eqb (length zs) (length calls)
+  && forallb (fun zc => negb (fst zc) || (snd zc =? 0)) (combine zs calls)
+  && (negb (all_probed spec && nonempty) || (fold_right Z.add 0 calls =? hist_total h (fun c => negb (c =? -4)))).
+
 (* input = [seed; draws; [pol; pop; spec]] or [seed; draws; [pol; pop; spec; warm-up population sizes]]: the selector
    value may have been used on other populations before - which must not matter; the frequencies are judged by the driver *)
 Definition judge (t : tree) : option (list Z) :=
   match t with
   | L [L [_; _; L (pol :: pop :: spec :: _)]; o] =>
     olet pol := option_map Z.odd (tZ pol) in olet pop := tlist (tlist tZ) pop in olet s := dec_sel spec in
+    let probe_verdict := match o with
+                         | L [A (-50); L h; calls] => option_map (probes_ok spec (negb (Nat.eqb (length pop) 0)) h) (tlist tZ calls)
+                         | L [L [A (-10); _; _]] => Some true   (* rejected when built: nothing was selected *)
+                         | _ => Some (match probes false spec with [] => true | _ => false end)
+                         end in
+    let o := match o with L [A (-50); h; _] => h | _ => o end in
+    match probe_verdict with None => None | Some false => Some [2; 7] | Some true =>
     match build_error s with
     | Some (a, b) =>
       Some [match o with
@@ -75,6 +113,6 @@ Definition judge (t : tree) : option (list Z) :=
       | L [L [A (-10); _; _]] => Some [2; 6]
       | _ => Some (4 :: Z.of_nat (length pop) :: map (class_of (order_based s) pop) (seq 0 (length pop)) ++ enc_law (law pol pop s))
       end
-    end
+    end end
   | _ => None
   end.
